@@ -555,6 +555,10 @@ func (n *simNode) boot() {
 		bs := store.NewBlockStore(simdisk.NewCrashDB("ro", n.image["blockstore"], nil))
 		if st, err := sm.NewStore(simdisk.NewCrashDB("ro", n.image["state"], nil), sm.StoreOptions{}).Load(); err == nil {
 			storeAhead = bs.Height() > 0 && bs.Height() > st.LastBlockHeight
+			if st.LastBlockHeight > 0 && s.cfg.Bool("stale_statesync") {
+				config.StateSync.Enable = true
+				s.env.Count("probe.restart_with_statesync_enabled_and_state")
+			}
 			if storeAhead {
 				if blk := bs.LoadBlock(bs.Height()); blk != nil && len(blk.Evidence.Evidence) > 0 {
 					// the handshake applies this block with an EmptyEvidencePool: the real pool never
